@@ -267,9 +267,27 @@ def r3_sources_and_atoms(ctx):
     require_idiom(ok, 'c15.py:285')
     yield Ob('codes:ExternalCodes.isValid honours the exclusion list and tests membership', ok, ctx.floc(isv), '' if ok else 'isValid changed')
     ci = ctx.func('codes', 'ExternalCodes.__init__')
-    ok = "exclude.split(',')" in ast.unparse(ci)
-    require_idiom(ok, 'c15.py:288')
-    yield Ob('codes:ExternalCodes.__init__ splits the exclusion list on commas', ok, ctx.floc(ci), '' if ok else 'changed')
+    # the exclusion parameter is a comma separated text: what is kept must be the sequence of its ids (isValid tests `key in`
+    # it - against the raw text that is a substring test: excluding claim_status_cat would switch off claim_status too)
+    binds = [st for st in ast.walk(ci) if isinstance(st, ast.Assign) and len(st.targets) == 1 and path_of(st.targets[0]) == 'self.exclude_list']
+    require_idiom(len(binds) >= 1, 'c15.py:288')
+    msg_x = ''
+    for text_, want_ in (('states,claim_status_cat', ('states', 'claim_status_cat')), ('states', ('states',)), (None, ())):
+        got_ = []
+        for st in binds:
+            try:
+                got_.append(A.ev(st.value, {'exclude': text_}))
+            except (A.NotClosed, TypeError, AttributeError, ValueError):
+                got_.append('?')
+        # (an `if exclude is None` split into two statements: the one that applies is the one that evaluates - to a sequence for
+        #  a text, to the empty default for None; the other may not evaluate at all, None has no split)
+        got_ = [g_ for g_ in got_ if g_ != '?']
+        require_idiom(bool(got_), 'c15.py:288')
+        cand = [g_ for g_ in got_ if (text_ is None and g_ in ((), None)) or (text_ is not None and g_ not in ((), None))] or got_
+        g0 = cand[0]
+        if isinstance(g0, str) or (isinstance(g0, (tuple, frozenset)) and tuple(g0) != want_ and set(g0) != set(want_)) or g0 is None and want_:
+            msg_x = msg_x or 'exclude_external_codes=%r is kept as %r, expected the ids %s: membership in it is then not a test for a whole id' % (text_, g0, list(want_))
+    yield Ob('codes:ExternalCodes.__init__ splits the exclusion list on commas', not msg_x, ctx.floc(ci), msg_x)
     # charset and version reach the recogniser
     dt = [c for c in A.calls_in(fn) if A.call_target(c)[1] == 'IsValidDataType']
     def resolved(a):
@@ -733,6 +751,15 @@ def r11_control_characters(ctx):
     fn = ctx.func('validation', 'contains_control_character')
     hf = helper_oracles(ctx, 'validation')
     consts = A.module_constants(ctx.mod('validation').tree)
+    # module-level tables that are computed by a helper of the module (built once at import): their value by constant propagation
+    for st_ in ctx.mod('validation').tree.body:
+        if isinstance(st_, ast.Assign) and len(st_.targets) == 1 and isinstance(st_.targets[0], ast.Name) and st_.targets[0].id not in consts:
+            try:
+                v_ = A.ev(st_.value, consts, hf)
+                hash(v_)
+                consts[st_.targets[0].id] = v_
+            except Exception:
+                pass
     CONTROL = [0x07, 0x09, 0x0A, 0x0B, 0x0C, 0x0D, 0x1C, 0x1D, 0x1E, 0x1F, 0x01, 0x02, 0x03, 0x04, 0x05, 0x06, 0x11, 0x12, 0x13, 0x14, 0x15, 0x16, 0x17]
     bad = []
     n = 0
